@@ -575,6 +575,17 @@ Theorem T07g_loaded_entries : forall path_exists setdir text,
 Proof. exact loaded_names_spec. Qed.
 Print Assumptions T07g_loaded_entries.
 
+(* the hypothesis "the lines of the setfile are distinct names" (NoDup, in T07a..T07f) read at the byte level: the names a
+   text lists, each taken once (sort_uniq - what engine fs hands to the model for a setfile that repeats a line), are
+   distinct, and they are the names of the text *)
+Theorem T07g_lines_distinct : forall setdir text,
+  NoDup (sort_uniq (setfile_names setdir text)) /\
+  (forall p, In p (sort_uniq (setfile_names setdir text)) <-> In p (setfile_names setdir text)).
+Proof.
+  intros setdir text. split; [apply sorted_nodup, sort_uniq_sorted|]. intros p. apply sort_uniq_in.
+Qed.
+Print Assumptions T07g_lines_distinct.
+
 Example T07g_example :
   (* /d/set names a.mtbl (relative), /x/b (absolute), ./c (relative with a directory part); no newline after the last *)
   setfile_names [47; 100] ([97; 10] ++ [47; 120; 47; 98; 10] ++ [46; 47; 99]) = [[47; 100; 47; 97]; [47; 120; 47; 98]; [47; 100; 47; 46; 47; 99]] /\
